@@ -765,6 +765,25 @@ pub fn run(tier: &str) -> i32 {
     let restart_cases = restart_part(&v);
     let (cl_runs, cl_inconclusive, cl_checks, cl_full_early) = cluster_part(&v, if thorough { 1000 } else { 100 }, seed());
     let (tr_sessions, tr_shapes) = transports(&v, if thorough { 6_000 } else { 300 }, &mut rng);
+    // a TCP session whose client stops reading (it watches a key that is written a lot): however the node ends that
+    // session, once it is gone the count is back
+    let mut slow_sessions = 0u64;
+    for (writes, len) in if thorough { vec![(2000usize, 4000usize), (6000, 900), (800, 20_000)] } else { vec![(2000, 4000)] } {
+        let dir = fresh_dir("c17-slow");
+        match crate::transports::slow_tcp_subscriber(&dir, writes, len) {
+            Some(sl) => {
+                slow_sessions += 1;
+                if sl.count_with.parse::<i64>().ok() != sl.count_before.parse::<i64>().ok().map(|x| x + 1) {
+                    v.report(json!({"check": "connections", "mode": "transport", "problem": "count-differs-while-connected", "transport": "tcp", "session": "subscriber-that-stops-reading"}), json!({"before": sl.count_before, "with_the_session": sl.count_with}));
+                } else if sl.count_after != sl.count_before {
+                    v.report(json!({"check": "connections", "mode": "transport", "problem": "count-not-back-after-session-gone", "transport": "tcp", "session": "subscriber-that-stops-reading"}),
+                        json!({"before": sl.count_before, "with_the_session": sl.count_with, "five_seconds_after_it_was_gone": sl.count_after, "connection_ended_by_server": sl.ended_by_server, "notifications_it_received": sl.received.len(), "writes": sl.writes, "panics": sl.panics}));
+                }
+            }
+            None => v.inconclusive("could not bind loopback ports"),
+        }
+    }
+    ev.set("tcp_sessions_whose_client_stopped_reading", json!(slow_sessions));
     let s = st.into_inner().unwrap();
     ev.evaluations = s.sequences + il_runs + tr_sessions;
     ev.distinct_nontrivial = (s.shapes.len() + il_nontrivial.len() + tr_shapes.len()) as u64;
